@@ -11,7 +11,7 @@ import (
 
 // hasToken reports whether a terminal write carries one of the harness's
 // tokens (shell output or status lines the simulator sent).
-func (s *sim) hasToken(data []byte) bool {
+func hasToken(data []byte) bool {
 	return bytes.Contains(data, []byte("<P")) || bytes.Contains(data, []byte("<S"))
 }
 
@@ -28,7 +28,7 @@ func (s *sim) check(a Action) {
 	// plain output: shown at once unless muted; what arrived while muted never shows
 	for i := range s.plainSent {
 		t := &s.plainSent[i]
-		shown := bytes.Contains(out, []byte(t.key()))
+		shown := s.onTerm(out, t.key())
 		exp := t.expect
 		if exp == "shown-if-never-muted" {
 			exp = "unjudged"
@@ -64,14 +64,14 @@ func (s *sim) check(a Action) {
 	if len(held) == 0 {
 		for i := range s.plainSent {
 			t := &s.plainSent[i]
-			if t.exactChecked || !bytes.Contains(out, []byte(t.key())) {
+			if t.exactChecked || !s.onTerm(out, t.key()) {
 				continue
 			}
 			t.exactChecked = true
 			// how the line editor spells a newline is its own business: compare with
 			// carriage returns taken out on both sides
 			want := bytes.ReplaceAll([]byte(t.text), []byte("\r"), nil)
-			if !bytes.Contains(bytes.ReplaceAll(out, []byte("\r"), nil), want) {
+			if !bytes.Contains(s.termBytesNoCR(out), want) {
 				s.violate("C03", "plain-verbatim-on-terminal", "shell output not written to the terminal byte for byte in one piece",
 					"shell output %q is on the terminal, but not as the contiguous bytes %q (something was changed, reordered or held back)", t.text, string(want))
 				return
@@ -84,12 +84,12 @@ func (s *sim) check(a Action) {
 	if len(held) == 0 && len(s.och) == 0 {
 		for i := range s.plainSent {
 			x := &s.plainSent[i]
-			if bytes.Contains(out, []byte(x.key())) {
+			if s.onTerm(out, x.key()) {
 				continue
 			}
 			for j := i + 1; j < len(s.plainSent); j++ {
 				y := &s.plainSent[j]
-				if now < x.at+pause && bytes.Contains(out, []byte(y.key())) {
+				if now < x.at+pause && s.onTerm(out, y.key()) {
 					s.violate("C19", "mute-lasts-after-suppressed-output", "shell output displayed less than the pause interval after suppressed output",
 						"shell output %q (sent at t=%s) was suppressed, so output was muted then; yet %q, sent later, is on the terminal at t=%s, before t=%s",
 						x.key(), time.Duration(x.at), y.key(), time.Duration(now), time.Duration(x.at+pause))
@@ -105,7 +105,7 @@ func (s *sim) check(a Action) {
 			if t.checked {
 				continue
 			}
-			if !bytes.Contains(out, []byte(t.key())) {
+			if !s.onTerm(out, t.key()) {
 				s.violate("C19", "status-always-shown", "status line not written to the terminal",
 					"status line %q (sent at t=%s, muted=%v) is not on the terminal", t.text, time.Duration(t.at), s.muted)
 				return
@@ -115,12 +115,13 @@ func (s *sim) check(a Action) {
 	}
 	if timing && !s.noJudge {
 		// timer-driven writes of this step: the un-mute announcement and nothing else
+		// (what has been written never changes, more is only ever appended: no copy needed)
 		s.mu.Lock()
-		ws := append([]twrite(nil), s.writes...)
+		ws := s.writes[:len(s.writes):len(s.writes)]
 		s.mu.Unlock()
 		announced := false
 		for _, w := range ws {
-			if s.hasToken(w.data) {
+			if w.token {
 				continue
 			}
 			if s.announceBy > 0 && w.at >= s.unmutedAt && w.at <= s.announceBy && w.at > s.mutedSince {
@@ -254,6 +255,12 @@ func (s *sim) checkInput(parked bool) {
 	if s.stalled || (!parked && reading > 0) {
 		// nothing or not everything can have arrived: what has must be the beginning
 		if len(s.got) > 0 && !matchInput(exp, s.got, true) {
+			if n, sizes := s.insertInPieces(exp, true); n > 0 {
+				s.violate("C02", "insert-is-one-entry", "inserted text arrives as several entries instead of one",
+					"entered %s; the input channel delivered %s: an insert of %d bytes arrived cut into %d entries of %s bytes (an insert must arrive as exactly one entry)",
+					expTexts(exp), clipList(s.got), len(s.payloadS), n, sizes)
+				return
+			}
 			if !s.stalled && s.insertOvertaken(exp, true) {
 				s.violate("C02", "insert-keeps-its-place", "line typed after Ctrl+I is delivered before the inserted text",
 					"entered %s; the input channel delivered %s while the source of an insert entered earlier is still being read", expTexts(exp), clipList(s.got))
@@ -275,6 +282,12 @@ func (s *sim) checkInput(parked bool) {
 		}
 		return
 	}
+	if n, sizes := s.insertInPieces(exp, false); n > 0 {
+		s.violate("C02", "insert-is-one-entry", "inserted text arrives as several entries instead of one",
+			"entered %s; the input channel delivered %s: an insert of %d bytes arrived cut into %d entries of %s bytes (an insert must arrive as exactly one entry)",
+			expTexts(exp), clipList(s.got), len(s.payloadS), n, sizes)
+		return
+	}
 	if s.insertOvertaken(exp, false) {
 		s.violate("C02", "insert-keeps-its-place", "line typed after Ctrl+I is delivered before the inserted text",
 			"entered %s; the input channel delivered %s: everything arrived once and the typed lines are in order, but inserted text arrived after lines that were typed after Ctrl+I (an insert must keep its place amongst the typed lines, whatever happens to the inserts around it)",
@@ -285,11 +298,62 @@ func (s *sim) checkInput(parked bool) {
 		"entered %s; the input channel delivered %s (an insert must arrive as exactly one entry)", expTexts(exp), clipList(s.got))
 }
 
+// insertInPieces names one way in which what arrived can differ from what was
+// entered (the difference itself has been established by matchInput): with
+// every run of two or more consecutive entries which together are the inserted
+// text, byte for byte, taken as the one entry it should have been, what arrived
+// is what was entered.  It returns the number of pieces of the first such run
+// and their sizes, or 0.  (prefix: got is only the beginning of what will
+// arrive; a run still incomplete at the end of got is then taken as begun.)
+func (s *sim) insertInPieces(exp []expEnt, prefix bool) (int, string) {
+	pl := s.payloadS
+	var joined []string
+	first, sizes := 0, ""
+	for i := 0; i < len(s.got); {
+		j, n := i, 0
+		for j < len(s.got) && len(s.got[j]) > 0 && n+len(s.got[j]) <= len(pl) && pl[n:n+len(s.got[j])] == s.got[j] {
+			n += len(s.got[j])
+			j++
+			if n == len(pl) {
+				break
+			}
+		}
+		whole := n == len(pl) && j-i >= 2
+		begun := prefix && j == len(s.got) && n > 0 && n < len(pl)
+		if !whole && !begun {
+			joined = append(joined, s.got[i])
+			i++
+			continue
+		}
+		if first == 0 {
+			first = j - i
+			var p []string
+			for _, x := range s.got[i:j] {
+				if len(p) >= 8 {
+					p = append(p, "...")
+					break
+				}
+				p = append(p, fmt.Sprint(len(x)))
+			}
+			sizes = strings.Join(p, "+")
+			if begun {
+				sizes += "+(not all has arrived yet)"
+			}
+		}
+		joined = append(joined, pl)
+		i = j
+	}
+	if first == 0 || !matchInput(exp, joined, prefix) {
+		return 0, ""
+	}
+	return first, sizes
+}
+
 // insertOvertaken: got is what was expected with nothing lost or duplicated
 // and the typed lines in order; only inserted payloads sit later than they
 // should.  (prefix: got is only the beginning of what will arrive.)
 func (s *sim) insertOvertaken(exp []expEnt, prefix bool) bool {
-	pl := string(s.payload)
+	pl := s.payloadS
 	var a, b []string
 	var t, u []int // typed lines before each expected insert / each delivered payload
 	var mand []bool
